@@ -454,6 +454,11 @@ func (abvt *accountBlockTransactionVerifier) descendantBlocks() error {
 		return ErrABDescendantMustBeZero
 	}
 	for _, dBlock := range block.DescendantBlocks {
+		// the hash of the parent covers only the Hash fields of its descendants,
+		// so each descendant must match its own hash
+		if dBlock.ComputeHash() != dBlock.Hash {
+			return DescendantVerifyError(ErrABHashInvalid)
+		}
 		if err := (&accountBlockVerifier{
 			block:         dBlock,
 			accountStore:  abvt.accountStore,
